@@ -566,7 +566,7 @@ class Prop:
         F = (a, b)
         cases = []
         kinds = [('gr_only', (a, b), None), ('gr_llgr', (a, b), ((a, LT), (b, LT))), ('llgr_only', None, ((a, LT), (b, LT)))]
-        endings = [('eor_before_rtimer', []), ('rtimer', [('rtimer',)]), ('llgr_expiry', [('rtimer',), ('ltimer', a), ('ltimer', b)]),
+        endings = [('eor_before_rtimer', []), ('eor_a_only_then_drop', []), ('rtimer', [('rtimer',)]), ('llgr_expiry', [('rtimer',), ('ltimer', a), ('ltimer', b)]),
                    ('llgr_partial', [('rtimer',), ('ltimer', a)]), ('force', [('force',)])]
         def restrict(grf, ll, keep):
             g = None if grf is None else tuple(f for f in grf if f in keep)
@@ -582,8 +582,12 @@ class Prop:
                         for k in range(ncyc):
                             g, l = (grf, ll) if k == 0 else restrict(grf, ll, keep)
                             gr = None if g is None else (g, RT, bool(n % 2))
-                            evs += [('up', F, gr, l, default_caps(gr, l)), ('ann', a, 2 * k, False, False), ('ann', b, 2 * k + 1, k == 1, False),
-                                    ('eor', a), ('eor', b), ('down', 0)]
+                            # the same route of a is announced again in every cycle, b gets a new one; after an ending
+                            # 'eor_a_only_then_drop' the session drops while the End-of-RIB of b is still awaited
+                            evs += [('up', F, gr, l, default_caps(gr, l)), ('ann', a, 0, False, False), ('ann', b, 2 * k + 1, k == 1, False), ('eor', a)]
+                            if not (k > 0 and ends[k - 1][0] == 'eor_a_only_then_drop'):
+                                evs.append(('eor', b))
+                            evs.append(('down', 0))
                             evs += list(ends[k][1]) if k < ncyc - 1 else [('rtimer',), ('ltimer', a), ('ltimer', b), ('rtimer',), ('ltimer', a)]
                         n += 1
                         cases.append(dict(kind='h', cls=['multi_cycle', 'cycles_%d' % ncyc, 'kind_' + kname, 'later_' + sname] +
